@@ -142,7 +142,67 @@ def c13_ble_cases(draw):
             "att": draw(st.sampled_from([23, 30, 155, 512])), "fail_exec": draw(st.booleans()), "k": draw(st.integers(0, 10))}
 
 
+def run_c13_ble_read(case, R):
+    """Reads of several characteristics of which some are refused: every value in the result is the one the accessory holds for that very
+    characteristic; a refused characteristic comes back without a value (with its status, or not at all - the BLE transport leaves it out)."""
+    ids = case["ids"]
+    statuses = case["statuses"]
+    R.nt(any(s == 0 for s in statuses) and any(s != 0 for s in statuses))
+    R.cls("read:ble", f"n={len(ids)}")
+
+    async def main(loop):
+        w = BleWorld(loop, k=case.get("k", 0), att_payload=case.get("att", 155))
+        try:
+            p = w.pairing
+            values = {}
+            for i, (iid, s) in enumerate(zip(ids, statuses)):
+                values[iid] = value_for(iid, case.get("sel", 0) + 3 * i + 1)
+                w.acc.chars[iid]["value"] = wire_value(iid, values[iid])
+                w.acc.chars[iid]["read_status"] = s
+            what = f"BLE read {ids} statuses {statuses} values {values}"
+            try:
+                res = await p.get_characteristics([(1, iid) for iid in ids])
+            except Exception as e:  # noqa: BLE001
+                R.fail("C13.read-raises", f"{what}: {type(e).__name__}: {e}", exc=type(e).__name__)
+                return
+            for iid, s in zip(ids, statuses):
+                got = res.get((1, iid))
+                if s != 0:
+                    if got is not None and "value" in got:
+                        R.fail("C13.read-status", f"{what}: the accessory refused {iid} with status {s}; result {got!r}", code="ble")
+                        return
+                else:
+                    v = (got or {}).get("value")
+                    exp = values[iid]
+                    if got is None or (v != exp and not (FORMATS[iid][0] == "float" and isinstance(v, float) and abs(v - exp) < 1e-6)):
+                        R.fail("C13.read-value", f"{what}: {iid} holds {exp!r}, result {got!r}")
+                        return
+            await p.shutdown()
+        finally:
+            w.restore()
+    vtime.run(main)
+
+
+def enum_c13_ble_read(tier):
+    rd = [i for i in sorted(FORMATS) if "pr" in FORMATS[i][2]]
+    for ids in ([10], [10, 11], [11, 12, 10], [12, 11, 14], [15, 14, 16], [16, 10, 11, 12]):
+        for vec in itertools.product([0, 1, 2, 3, 5, 6], repeat=min(len(ids), 3)):
+            yield {"ids": ids, "statuses": list(vec) + [0] * (len(ids) - len(vec)), "sel": len(ids)}
+    assert set(x for ids in ([10, 11, 12, 14, 15, 16],) for x in ids) <= set(rd)
+
+
+@st.composite
+def c13_ble_read_cases(draw):
+    rd = [i for i in sorted(FORMATS) if "pr" in FORMATS[i][2]]
+    n = draw(st.integers(1, min(5, len(rd))))
+    ids = draw(st.lists(st.sampled_from(rd), min_size=n, max_size=n, unique=True))
+    return {"ids": ids, "statuses": [draw(st.sampled_from([0, 0, 0, 1, 2, 3, 4, 5, 6])) for _ in ids], "sel": draw(st.integers(0, 1000)),
+            "att": draw(st.sampled_from([23, 30, 155, 512])), "k": draw(st.integers(0, 10))}
+
+
 C13_LAYERS = [
+    Layer("ble-read-table", run_c13_ble_read, enumerate=enum_c13_ble_read, exhaustive=True, space="6 PDU statuses ^ min(n, 3) for 6 readable sets (n <= 4), distinct values", min_nontrivial=100),
+    Layer("ble-read-gen", run_c13_ble_read, strategy=c13_ble_read_cases, n={"quick": 600, "thorough": 10000}),
     Layer("ble-write-table", run_c13_ble, enumerate=enum_c13_ble, exhaustive=True, space="5 PDU statuses ^ n for 5 characteristic sets (n <= 3); timed-write and small-MTU variants", min_nontrivial=100),
     Layer("ble-write-gen", run_c13_ble, strategy=c13_ble_cases, n={"quick": 2000, "thorough": 30000}),
 ]
